@@ -1,0 +1,20 @@
+//go:build verif
+
+package segment
+
+import "time"
+
+// VerifSetMaxPayloadSize sets the per-datagram payload size and returns the previous value.
+func VerifSetMaxPayloadSize(size int) int {
+	org := maxPayloadSize
+	maxPayloadSize = size
+	return org
+}
+
+// VerifSetTimeNow replaces the clock used for read buffer expiry; nil restores time.Now.
+func VerifSetTimeNow(f func() time.Time) {
+	if f == nil {
+		f = time.Now
+	}
+	timeNow = f
+}
